@@ -1,7 +1,7 @@
 (* C07 -- A stochastic object stops growing at the first unit that exceeds its drawn mass.
    For every input, pick stream and list of drawn targets (negative, tiny and huge ones included). *)
 From Coq Require Import List ZArith QArith Ascii String Bool.
-From GBS Require Import Model.PyStr Model.Num Model.Bond Model.Select Model.Gen Proofs.BondP Proofs.GenP Props.GenExample.
+From GBS Require Import Model.PyStr Model.Num Model.Bond Model.Select Model.Gen Proofs.BondP Proofs.GenP Props.GenExample Proofs.GenFuel.
 Import ListNotations.
 Open Scope Q_scope.
 
@@ -42,6 +42,19 @@ Theorem C07_loop_step : forall s ei start T fuel g units st r st',
   GInv [] g -> grow_loop fuel s ei start T g units st = Done r st' -> grow_post s ei start T g units r.
 Proof. intros s ei start T fuel g units st r st' H E. exact (grow_loop_post s ei start T fuel g units H st r st' E). Qed.
 Print Assumptions C07_loop_step.
+
+(* whatever the random stream: (number of growth steps - 1) x (mass of the lightest token) <= drawn target *)
+Theorem C07_units_bounded : forall s ei prefix st gi st' mmin front last,
+  (forall g, prefix = Some g -> GInv [] g) -> gen_stoch s ei prefix st = Done gi st' ->
+  (forall tok, In tok (s_rep s) \/ In tok (s_end s) -> mmin <= t_mass tok) ->
+  si_units (snd gi) = front ++ [last] -> front <> [] ->
+  inject_Z (Z.of_nat (List.length front)) * mmin <= si_target (snd gi).
+Proof. exact gen_stoch_units_bounded. Qed.
+Print Assumptions C07_units_bounded.
+
+Theorem C07_loops_terminate : forall els pk tg, run_gen els pk tg <> OutOfFuel.
+Proof. exact run_gen_never_out_of_fuel. Qed.
+Print Assumptions C07_loops_terminate.
 
 Example C07_example :
   match run_gen ex1_els ex1_picks ex1_targets with
